@@ -316,6 +316,15 @@ def c07(obj, kind, case, cfg, rec, rng):
     again = outcome(lambda: obj.transform(X))
     rec('C07:transform#post.repeatable', again[0] == 'ok' and frame_equal(again[1], full), 'second transform differs')
     rec('C07:transform#frame.fitted_state_unchanged', json.dumps(obj.to_json(), sort_keys=True, default=str) == state0, 'to_json() changed after transform calls')
+    # read-only observers called in between (summary, history, to_json) are no exception: the next transform gives the same result
+    labels0 = repr(sorted((f, sorted((repr(k), repr(v)) for k, v in lp.items())) for f, lp in obj.labels_per_values.items()))
+    for name in ('summary', 'history', 'to_json'):
+        if hasattr(obj, name): outcome(getattr(obj, name))
+    if obj.features: outcome(lambda: obj.summary(obj.features[0]))
+    again = outcome(lambda: obj.transform(X))
+    rec('C07:transform#post.repeatable', again[0] == 'ok' and frame_equal(again[1], full), 'transform after summary() / history() / to_json() differs from the first one', dict(after='observers'))
+    labels1 = repr(sorted((f, sorted((repr(k), repr(v)) for k, v in lp.items())) for f, lp in obj.labels_per_values.items()))
+    rec('C07:transform#frame.fitted_state_unchanged', labels0 == labels1, 'labels_per_values changed after summary() / history() / to_json()', dict(after='observers'))
 
 
 def c07_fit(kind, case, cfg, rec):
